@@ -709,7 +709,8 @@ class PackageSpecs(Part):
     file it names."""
     name = "packagespecs"
     examples = {"quick": 150, "thorough": 3000}
-    floors = {"package_top": 0.2}
+    # (a finite space - 336 combinations - of which 1 in 7 is of this kind)
+    floors = {"package_top": 0.08}
 
     def strategy(self, tier):
         from hypothesis import strategies as st
